@@ -9,4 +9,3 @@ CONSTANTS
   MaxNodes = 9
   EscapeKeys = TRUE
   MaxHist = 9
-CONSTRAINT Emit
